@@ -269,26 +269,29 @@ structure OsuMods where
 /-- `OsuDifficultyAttributes::od` = `osu_great_hit_window_to_od`: `(OSU_GREAT.min - hit_window) / 6.0` -/
 def OsuAttrs.od (a : OsuAttrs R) : R := (80.0 - a.greatHitWindow) / 6.0
 
-/-- `OsuScoreState::accuracy(origin)` over `f64`; the origin is determined by `(lazer, classic)` as in
-`OsuPerformance::calculate` -/
-def osuAccuracy (a : OsuAttrs R) (s : OsuState) (lazer classic : Bool) : R :=
+/-- `(numerator, denominator)` of `OsuScoreState::accuracy(origin)` over `f64`; the origin is determined
+by `(lazer, classic)` as in `OsuPerformance::calculate` -/
+def osuAccuracyParts (a : OsuAttrs R) (s : OsuState) (lazer classic : Bool) : R × R :=
   let numerator : R := ofNat (6 * s.n300 + 2 * s.n100 + s.n50)
   let denominator : R := ofNat (6 * (s.n300 + s.n100 + s.n50 + s.misses))
-  let (numerator, denominator) : R × R :=
-    if !lazer then (numerator, denominator)
-    else if !classic then
-      -- WithSliderAcc { max_large_ticks: n_large_ticks, max_slider_ends: n_sliders }
-      let sliderEndHits := min s.sliderEndHits a.nSliders
-      let largeTickHits := min s.largeTickHits a.nLargeTicks
-      (numerator + (ofNat (3 * sliderEndHits) + 0.6 * ofNat largeTickHits),
-       denominator + (ofNat (3 * a.nSliders) + 0.6 * ofNat a.nLargeTicks))
-    else
-      -- WithoutSliderAcc { max_large_ticks: n_sliders + n_large_ticks, max_small_ticks: n_sliders }
-      let largeTickHits := min s.largeTickHits (a.nSliders + a.nLargeTicks)
-      let smallTickHits := min s.smallTickHits a.nSliders
-      (numerator + (0.6 * ofNat largeTickHits + 0.2 * ofNat smallTickHits),
-       denominator + (0.6 * ofNat (a.nSliders + a.nLargeTicks) + 0.2 * ofNat a.nSliders))
-  if floatEq denominator 0.0 then 0.0 else numerator / denominator
+  if !lazer then (numerator, denominator)
+  else if !classic then
+    -- WithSliderAcc { max_large_ticks: n_large_ticks, max_slider_ends: n_sliders }
+    let sliderEndHits := min s.sliderEndHits a.nSliders
+    let largeTickHits := min s.largeTickHits a.nLargeTicks
+    (numerator + (ofNat (3 * sliderEndHits) + 0.6 * ofNat largeTickHits),
+     denominator + (ofNat (3 * a.nSliders) + 0.6 * ofNat a.nLargeTicks))
+  else
+    -- WithoutSliderAcc { max_large_ticks: n_sliders + n_large_ticks, max_small_ticks: n_sliders }
+    let largeTickHits := min s.largeTickHits (a.nSliders + a.nLargeTicks)
+    let smallTickHits := min s.smallTickHits a.nSliders
+    (numerator + (0.6 * ofNat largeTickHits + 0.2 * ofNat smallTickHits),
+     denominator + (0.6 * ofNat (a.nSliders + a.nLargeTicks) + 0.2 * ofNat a.nSliders))
+
+/-- `OsuScoreState::accuracy(origin)`: `if denominator.eq(0.0) { 0.0 } else { numerator / denominator }` -/
+def osuAccuracy (a : OsuAttrs R) (s : OsuState) (lazer classic : Bool) : R :=
+  let nd := osuAccuracyParts a s lazer classic
+  if floatEq nd.2 0.0 then 0.0 else nd.1 / nd.2
 
 /-- `total_imperfect_hits` -/
 def totalImperfectHits (s : OsuState) : R := ofNat (s.n100 + s.n50 + s.misses)
@@ -371,10 +374,8 @@ def osuSliderEstimate (c : OsuCalc R) : R :=
     clamp (ofNat ((c.attrs.nSliders - c.state.sliderEndHits) + (c.attrs.nLargeTicks - c.state.largeTickHits)))
       0.0 c.attrs.aimDifficultSliderCount
 
-/-- `compute_aim_value` -/
-def computeAimValue (c : OsuCalc R) : R :=
-  if c.mods.ap then 0.0
-  else
+/-- `compute_aim_value` after the `if self.mods.ap() { return 0.0 }` -/
+def computeAimBody (c : OsuCalc R) : R :=
     let aimDifficulty := c.attrs.aim
     let aimDifficulty :=
       if c.attrs.nSliders > 0 && lt 0.0 c.attrs.aimDifficultSliderCount then
@@ -409,9 +410,11 @@ def computeAimValue (c : OsuCalc R) : R :=
     let aimValue := aimValue * c.acc
     aimValue * (0.98 + powf (fmax 0.0 c.attrs.od) 2.0 / 2500.0)
 
-def computeAimValueDom (c : OsuCalc R) : Bool :=
-  if c.mods.ap then true
-  else
+/-- `compute_aim_value` -/
+def computeAimValue (c : OsuCalc R) : R :=
+  if c.mods.ap then 0.0 else computeAimBody c
+
+def computeAimBodyDom (c : OsuCalc R) : Bool :=
     (if c.attrs.nSliders > 0 && lt 0.0 c.attrs.aimDifficultSliderCount then
       (if c.usingClassicSliderAcc then decide (c.state.maxCombo ≤ c.attrs.maxCombo)
        else decide (c.state.sliderEndHits ≤ c.attrs.nSliders) && decide (c.state.largeTickHits ≤ c.attrs.nLargeTicks))
@@ -422,6 +425,9 @@ def computeAimValueDom (c : OsuCalc R) : Bool :=
           calculateMissPenaltyDom c.effectiveMissCount c.attrs.aimDifficultStrainCount
         else true)
     && (if c.mods.bl then nz (1.0 + 2.0 * c.effectiveMissCount) else true)
+
+def computeAimValueDom (c : OsuCalc R) : Bool :=
+  if c.mods.ap then true else computeAimBodyDom c
 
 /-- `calculate_speed_high_deviation_nerf` -/
 def calculateSpeedHighDeviationNerf (c : OsuCalc R) (speedDeviation : R) : R :=
@@ -454,11 +460,8 @@ def osuRelevantAcc (c : OsuCalc R) : R :=
   if floatEq c.attrs.speedNoteCount 0.0 then 0.0
   else (relevantN300 * 6.0 + relevantN100 * 2.0 + relevantN50) / (c.attrs.speedNoteCount * 6.0)
 
-/-- `compute_speed_value(speed_deviation)` -/
-def computeSpeedValue (c : OsuCalc R) (speedDeviation : Option R) : R :=
-  match (if c.mods.rx then none else speedDeviation) with
-  | none => 0.0
-  | some speedDeviation =>
+/-- `compute_speed_value` after `let Some(speed_deviation) = … else { return 0.0 }` -/
+def computeSpeedBody (c : OsuCalc R) (speedDeviation : R) : R :=
     let speedValue := strainDifficultyToPerformance c.attrs.speed
     let totalHits := c.totalHits
     let lenBonus := osuLenBonus totalHits
@@ -483,10 +486,13 @@ def computeSpeedValue (c : OsuCalc R) (speedDeviation : Option R) : R :=
     speedValue * ((0.95 + powf (fmax 0.0 od) 2.0 / 750.0)
       * powf ((c.acc + relevantAcc) / 2.0) ((14.5 - od) / 2.0))
 
-def computeSpeedValueDom (c : OsuCalc R) (speedDeviation : Option R) : Bool :=
+/-- `compute_speed_value(speed_deviation)`: `speed_deviation.filter(|_| !self.mods.rx())` -/
+def computeSpeedValue (c : OsuCalc R) (speedDeviation : Option R) : R :=
   match (if c.mods.rx then none else speedDeviation) with
-  | none => true
-  | some speedDeviation =>
+  | none => 0.0
+  | some speedDeviation => computeSpeedBody c speedDeviation
+
+def computeSpeedBodyDom (c : OsuCalc R) (speedDeviation : R) : Bool :=
     osuLenBonusDom c.totalHits
     && (if lt 0.0 c.effectiveMissCount then
           calculateMissPenaltyDom c.effectiveMissCount c.attrs.speedDifficultStrainCount
@@ -495,14 +501,17 @@ def computeSpeedValueDom (c : OsuCalc R) (speedDeviation : Option R) : Bool :=
     && (if floatEq c.attrs.speedNoteCount 0.0 then true else nz (c.attrs.speedNoteCount * 6.0))
     && powfDom ((c.acc + osuRelevantAcc c) / 2.0) ((14.5 - c.attrs.od) / 2.0)
 
+def computeSpeedValueDom (c : OsuCalc R) (speedDeviation : Option R) : Bool :=
+  match (if c.mods.rx then none else speedDeviation) with
+  | none => true
+  | some speedDeviation => computeSpeedBodyDom c speedDeviation
+
 /-- `amount_hit_objects_with_acc` -/
 def OsuCalc.amountHitObjectsWithAcc (c : OsuCalc R) : Nat :=
   if !c.usingClassicSliderAcc then c.attrs.nCircles + c.attrs.nSliders else c.attrs.nCircles
 
-/-- `compute_accuracy_value` -/
-def computeAccuracyValue (c : OsuCalc R) : R :=
-  if c.mods.rx then 0.0
-  else
+/-- `compute_accuracy_value` after the `if self.mods.rx() { return 0.0 }` -/
+def computeAccuracyBody (c : OsuCalc R) : R :=
     let amount := c.amountHitObjectsWithAcc
     let s := c.state
     let betterAccPercentage : R :=
@@ -519,11 +528,16 @@ def computeAccuracyValue (c : OsuCalc R) : R :=
       else accValue
     if c.mods.fl then accValue * 1.02 else accValue
 
-def computeAccuracyValueDom (c : OsuCalc R) : Bool :=
-  if c.mods.rx then true
-  else
+/-- `compute_accuracy_value` -/
+def computeAccuracyValue (c : OsuCalc R) : R :=
+  if c.mods.rx then 0.0 else computeAccuracyBody c
+
+def computeAccuracyBodyDom (c : OsuCalc R) : Bool :=
     (if c.amountHitObjectsWithAcc > 0 then nz (ofNat (c.amountHitObjectsWithAcc * 6) : R) else true)
     && powfDom (ofNat c.amountHitObjectsWithAcc / 1000.0) (0.3 : R)
+
+def computeAccuracyValueDom (c : OsuCalc R) : Bool :=
+  if c.mods.rx then true else computeAccuracyBodyDom c
 
 /-- `get_combo_scaling_factor` -/
 def getComboScalingFactor (c : OsuCalc R) : R :=
@@ -535,10 +549,8 @@ def getComboScalingFactorDom (c : OsuCalc R) : Bool :=
   else powfDom (ofNat c.state.maxCombo) (0.8 : R) && powfDom (ofNat c.attrs.maxCombo) (0.8 : R)
     && nz (powf (ofNat c.attrs.maxCombo) 0.8 : R)
 
-/-- `compute_flashlight_value` -/
-def computeFlashlightValue (c : OsuCalc R) : R :=
-  if !c.mods.fl then 0.0
-  else
+/-- `compute_flashlight_value` after the `if !self.mods.fl() { return 0.0 }` -/
+def computeFlashlightBody (c : OsuCalc R) : R :=
     let flashlightValue := flashlightDifficultyToPerformance c.attrs.flashlight
     let totalHits := c.totalHits
     let flashlightValue :=
@@ -553,15 +565,20 @@ def computeFlashlightValue (c : OsuCalc R) : R :=
     let flashlightValue := flashlightValue * (0.5 + c.acc / 2.0)
     flashlightValue * (0.98 + powf (fmax 0.0 c.attrs.od) 2.0 / 2500.0)
 
-def computeFlashlightValueDom (c : OsuCalc R) : Bool :=
-  if !c.mods.fl then true
-  else
+/-- `compute_flashlight_value` -/
+def computeFlashlightValue (c : OsuCalc R) : R :=
+  if !c.mods.fl then 0.0 else computeFlashlightBody c
+
+def computeFlashlightBodyDom (c : OsuCalc R) : Bool :=
     (if lt 0.0 c.effectiveMissCount then
       nz c.totalHits && powfDom (c.effectiveMissCount / c.totalHits) (0.775 : R)
         && powfDom c.effectiveMissCount (0.875 : R)
         && powfDom (1.0 - powf (c.effectiveMissCount / c.totalHits) 0.775) (powf c.effectiveMissCount 0.875)
      else true)
     && getComboScalingFactorDom c
+
+def computeFlashlightValueDom (c : OsuCalc R) : Bool :=
+  if !c.mods.fl then true else computeFlashlightBodyDom c
 
 /-- `total_successful_hits(state)` -/
 def osuTotalSuccessfulHits (s : OsuState) : Nat := s.n300 + s.n100 + s.n50
